@@ -49,9 +49,11 @@ def _lean_int(k):
 
 
 class Translator:
-    def __init__(self, src_units, src_calc):
+    def __init__(self, src_units, src_calc, repo=None):
         self.su = src_units
         self.sc = src_calc
+        self.repo = repo
+        self.route = "ast"
         self.syms = [(0, "pi", None)]  # (id, name, (n, e10) exact value or None)
         self.next_sym = 10
         self.defs = []  # (name, lean term) in order, units.py
@@ -295,11 +297,15 @@ class Translator:
         return "{ top := %s, bot := [%s] }" % (self.ATOMS[top], ", ".join(self.ATOMS[a] for a in atoms))
 
     def opt_expr(self, node):
+        if isinstance(node, str):
+            return node  # already a Lean term (trace route)
         if node is None or (isinstance(node, ast.Constant) and node.value is None):
             return "none"
         return "(some %s)" % self.expr(node, self.sc)
 
     def opt_unit(self, node):
+        if isinstance(node, str):
+            return node
         if node is None or (isinstance(node, ast.Constant) and node.value is None):
             return "none"
         if isinstance(node, ast.Constant) and isinstance(node.value, str):
@@ -356,15 +362,90 @@ class Translator:
         return {c: (a if c in names else b) for c in self.calc_names}
 
     # ---- output
+    # ---- fallback route: symbolic trace of calculator.py (tools/units_trace.py)
+    def num_term(self, text):
+        n, e = _lit(text)
+        if _smooth(n):
+            return "(.num %d %s)" % (n, _lean_int(e))
+        key = (n, e)
+        if key not in self.opaque:
+            self.opaque[key] = self.new_sym("lit_%de%d" % (n, e), key)
+        return "(.sym %d)" % self.opaque[key]
+
+    def tree(self, t):
+        kind = t[0]
+        if kind == "name":
+            if t[1] not in self.known:
+                raise Untranslatable("trace: unknown unit %s" % t[1])
+            return self.lean_name(t[1])
+        if kind == "lit":
+            return self.num_term(t[1])
+        if kind in ("mul", "div"):
+            return "(.%s %s %s)" % (kind, self.tree(t[1]), self.tree(t[2]))
+        if kind == "pow":
+            return "(.pow %s %s)" % (self.tree(t[1]), _lean_int(int(t[2])))
+        raise Untranslatable("trace: value %r" % (t,))
+
+    def traced(self):
+        """per-calculator tables obtained by calling calculator.py's public functions on symbolic unit constants"""
+        import json
+        import subprocess
+
+        if self.repo is None:
+            raise Untranslatable("trace route needs the repository path")
+        here = os.path.dirname(os.path.abspath(__file__))
+        names = [n for n, _ in self.defs]
+        r = subprocess.run([sys.executable, os.path.join(here, "units_trace.py"), self.repo, json.dumps(names)],
+                           capture_output=True, text=True, timeout=300)
+        if r.returncode != 0:
+            raise Untranslatable("symbolic trace of calculator.py failed: %s" % r.stderr.strip().split("\n")[-1][:300])
+        d = json.loads(r.stdout)
+        want = ["factor", "nac_factor", "distance_to_A", "force_to_eVperA", "force_constants_unit", "length_unit", "force_unit"]
+        if d["keys"] != want:
+            raise Untranslatable("units keys %r != %r" % (d["keys"], want))
+        if d["calculators"] != self.calc_names:
+            raise Untranslatable("trace: calculator_info keys differ")
+
+        def oe(t):
+            return "none" if t is None else "(some %s)" % self.tree(t)
+
+        def ou(t):
+            if t is None:
+                return "none"
+            if t[0] != "str":
+                raise Untranslatable("trace: unit string expected, got %r" % (t,))
+            return "(some %s)" % self.unit_str(t[1])
+
+        pu = {}
+        for c in self.calc_names + [None]:
+            u = d["units"]["" if c is None else c]
+            pu[c] = {k: (oe(u[k]) if k in want[:4] else ou(u[k])) for k in want}
+        doc_order = ["eV/angstrom^2", "eV/angstrom.au", "Ry/au^2", "mRy/au^2", "hartree/au^2", "hartree/angstrom.au"]  # docstring order
+        rows = sorted(d["table"], key=lambda r: (doc_order.index(r[0]) if r[0] in doc_order else len(doc_order), r[0]))
+        table = [(ustr, "(%s, %s)" % (self.unit_str(ustr), self.tree(t))) for ustr, t in rows]
+        if not table:
+            raise Untranslatable("trace: empty conversion table")
+        dd = {c: self.tree(d["disp"][c]) for c in self.calc_names}
+        return pu, table, dd
+
     def render(self):
         self.units_module()
         self.calculators()
-        pu = self.physical_units()
-        table = self.conversion_table()
-        dd = self.displacement_distance()
+        route = "ast"
+        try:
+            pu = self.physical_units()
+            table = self.conversion_table()
+            dd = self.displacement_distance()
+        except Untranslatable as e:
+            # the tables are no longer the if/elif chains / dict literal the ast route reads (import-time tables, helper
+            # look-ups, NamedTuple rows ...): read them off the public functions evaluated on symbolic unit constants
+            route = "symbolic trace (ast route: %s)" % e
+            pu, table, dd = self.traced()
+        self.route = route
         L = []
         w = L.append
-        w("/- GENERATED by tools/units2lean.py from phonopy/units.py and phonopy/interface/calculator.py — do not edit. -/")
+        w("/- GENERATED by tools/units2lean.py from phonopy/units.py and phonopy/interface/calculator.py — do not edit.")
+        w("   per-calculator tables obtained by: %s -/" % ("ast" if route == "ast" else "symbolic trace of the public functions"))
         w("import PhononModel.Model.UnitAlgebra")
         w("namespace PhononModel.Gen.Units")
         w("open PhononModel.Units")
@@ -431,7 +512,7 @@ class Translator:
 def generate(repo, out):
     su = open(os.path.join(repo, "phonopy", "units.py")).read()
     sc = open(os.path.join(repo, "phonopy", "interface", "calculator.py")).read()
-    text = Translator(su, sc).render()
+    text = Translator(su, sc, repo=repo).render()
     old = open(out).read() if os.path.exists(out) else None
     if old != text:  # keep the mtime (and lake's cache) when nothing changed
         tmp = out + ".tmp%d" % os.getpid()
